@@ -142,14 +142,21 @@ def one_history(ctx, hist_no, steps):
         else:
             es = []
             seen = set()
-            for _ in range(rng.randrange(0, 4)):
+            # `update` takes any iterable: the same edge may be listed twice
+            dups = op == "update" and rng.random() < 0.6
+            for _ in range(rng.randrange(0, 5)):
                 e = rand_edge(True)
-                if key(e) not in seen:
+                if dups and es and rng.random() < 0.4:
+                    e = rng.choice(es)
+                if key(e) not in seen or dups:
                     seen.add(key(e))
                     es.append(e)
             line = op + "".join(" " + edge_s(index, e) for e in es)
             want_exc = None
-            arg = set(es) if rng.random() < 0.5 or op != "update" else list(es)
+            arg = list(es) if dups or (op == "update" and rng.random() < 0.5) \
+                else set(es)
+            if op == "update" and rng.random() < 0.3:
+                arg = iter(list(es))
             try:
                 with core.time_limit(10):
                     if op == "update":
